@@ -170,6 +170,7 @@ func argVariants(t reflect.Type) []reflect.Value {
 		} else {
 			add(stk.Eq)
 			add(userOp{"~", "u"})
+			add(sliceOp{"~", "u"})
 			add(errors.New("e"))
 		}
 	case reflect.Func:
